@@ -100,7 +100,7 @@ def run(ctx, cases_override=None):
         "cases_generated_by_tlc": ncases,
         "evaluations": res["events"] - res["traces"],
         "distinct_nontrivial": len(classes),
-        "rule": "one evaluation = one recorded event judged by TLC in trace validation (Write/Chunks/Count/StrRef/Bsp/PortalRefs/Parse/"
+        "rule": "one evaluation = one recorded event judged by TLC in trace validation (Write/AltWrite/Chunks/Count/StrRef/Bsp/PortalRefs/Parse/"
                 "Sec/Rewrite/RwChunk/Convert/End; Reset events are not counted); distinct_nontrivial = number of distinct shape records "
                 "(kind, version, conversion target, list cardinalities, inner-list patterns, string class, extreme floats, BSP tree / portal "
                 "graph) among the replayed cases in which at least one list cardinality (ntex..nds for roots, nvert..ndref/liq for groups) "
